@@ -143,20 +143,29 @@ def main(run):
         clock = Clock()
         model = Models(rnd.choice(["scalar", "multi", "grow", "ignore", "positional", "coarse", "coarse", "top2", "top2"]), names, exact=True, clock=clock)
         loss = Losses(rnd.choice(["hash", "hash", "sq"]), exact=True, clock=clock)
+        river_loss = i % 6 == 4        # a river regression metric as the loss (float arithmetic, compared with a tolerance)
+        if river_loss:
+            from ..probes import RiverLoss
+            model = Models(rnd.choice(["scalar", "coarse", "linear", "positional"]), names, exact=False, clock=clock)
+            loss = RiverLoss(rnd.choice(["RMSE", "MAE", "MSE", "SMAPE"]))
         mode = rnd.choice(["many", "original", "explain_one", "explain_one_original"])
         # data may carry features that are not explained (the model reads them); not in original mode (statement's precondition)
         extras = [f"extra{j}" for j in range(rnd.choice([0, 0, 1, 2]))] if "original" not in mode else []
-        strat = rnd.choice(["joint", "product"])
+        strat = rnd.choice(["joint", "product", "joint", "product", "default"])      # (BatchSage together with a DefaultImputer, too)
         seed = rnd.randrange(2 ** 31)
         random.seed(seed)
         np.random.seed(seed)
         st = storage_proxy(BatchStorage, clock)(store_targets=True)
-        imp = ImputerProxy(MarginalImputer(model, strat, st), clock)
+        if strat == "default":
+            from ixai.imputer import DefaultImputer
+            imp = ImputerProxy(DefaultImputer(model, {f: -(j + 1) for j, f in enumerate(names)}), clock)
+        else:
+            imp = ImputerProxy(MarginalImputer(model, strat, st), clock)
         data = [({f: 1000 * (t + 1) + j for j, f in enumerate(names + extras)}, rnd.randrange(-4, 5)) for t in range(m)]
         replay = {"mode": mode, "unexplained_features": extras, "d": d, "rows": m, "n_inner": n_inner, "strategy": strat, "names": names, "seed": seed,
-                  "model": model.kind, "loss": loss.kind}
+                  "model": model.kind, "loss": ("river:" if river_loss else "") + loss.kind}
         try:
-            e = BatchSage(model, names, loss, n_inner_samples=n_inner, storage=st, imputer=imp)
+            e = BatchSage(model, names, loss.as_argument() if river_loss else loss, n_inner_samples=n_inner, storage=st, imputer=imp)
             override = rnd.choice([None, None, 1, 2])
             used = override or n_inner
             if mode in ("many", "original"):
@@ -202,11 +211,12 @@ def main(run):
             tot = total(ret.values())
             if set(ret.keys()) != set(names):
                 raise Bad("keys", f"result keys {list(ret)!r}")
-            if not (tot == eff):
-                raise Bad("efficiency", f"sum of values {tot!r} != mean explained loss {eff!r}")
+            tolx = 1e-9 * max(1.0, loss.max_abs) if river_loss else 0
+            if not (abs(tot - eff) <= tolx):
+                raise Bad("efficiency", f"sum of values {tot!r} != mean explained loss {eff!r}" + (f" (loss: river {loss.kind})" if river_loss else ""))
             if per is None:
                 run.count("original-mode-order-ambiguous")
-            elif not all(ret[f] == per[f] for f in names):
+            elif not all(abs(ret[f] - per[f]) <= tolx for f in names):
                 raise Bad("per-feature-average", f"values {ret!r} != average chain contributions {per!r}")
             if not (ret == e.importance_values):
                 raise Bad("return-value", "returned dict differs from importance_values")
